@@ -15,16 +15,50 @@ def main():
     ap.add_argument('--tier', default=os.environ.get('VERIF_TIER', 'quick'), choices=['quick', 'thorough'])
     ap.add_argument('--replay')
     a = ap.parse_args()
-    seed = int(os.environ.get('VERIF_SEED', '1'))
+    try:
+        seed = int(os.environ.get('VERIF_SEED', '1'))
+    except ValueError:
+        print('VERIF_SEED must be an integer', file=sys.stderr)
+        sys.exit(2)
     prop = a.prop.upper()
+    if not os.path.exists(os.path.join(os.path.dirname(__file__), prop.lower() + '.py')):
+        print(f'unknown property {a.prop}', file=sys.stderr)
+        sys.exit(2)
     mod = importlib.import_module(f'checks.{prop.lower()}')
     ctx = Ctx(prop, a.tier, seed)
     ctx.trusted = list(TRUSTED_COMMON)
     rc = 0
+
+    def broken(tie, detail):
+        # a proof obligation, a correspondence or the machinery itself no longer checks and no failing
+        # input was exhibited: still a violation report (the property is not shown to hold)
+        ctx.oblige(f'{tie} checks', False, detail[-300:])
+        replay = common.write_replay(ctx, 'tie', {'kind': 'tie', 'tie': tie, 'detail': detail[-6000:]})
+        common.write_evidence(ctx, 1)
+        print(f'# broken: {tie}: {detail[-1500:]}')
+        print(f'VIOLATION property={prop} replay={replay} no-failing-input-found')
+        return 1
+
     with Lock():
         try:
             if a.replay:
-                rc = mod.replay(ctx, json.load(open(a.replay)))
+                try:
+                    data = json.load(open(a.replay))
+                    if data.get('kind', 'corr') in getattr(mod, 'REPLAY_KINDS', ('corr',)):
+                        rc = mod.replay(ctx, data)
+                    else:
+                        # a broken tie or a scenario without a dedicated replay: run the check again on
+                        # the current tree (no evidence is written) and report whether it still fails
+                        print(f"REPLAY: kind {data.get('kind')!r}: re-running the whole check; recorded: {json.dumps(data)[:600]}")
+                        mod.run(ctx)
+                        print('REPLAY: no longer fails')
+                        rc = 0
+                except Violation as v:
+                    print('REPLAY: reproduces: ' + v.what[:800])
+                    rc = 1
+                except TieBroken as t:
+                    print(f'REPLAY: still broken: {t.tie}: {t.detail[-800:]}')
+                    rc = 1
                 sys.exit(rc)
             try:
                 mod.run(ctx)
@@ -35,30 +69,26 @@ def main():
                     if mods:
                         common.leanchecker(ctx, mods)
                 common.write_evidence(ctx, 0)
-                for l in ctx.known_lines:
-                    print(l)
                 print(f'OK property={prop} tier={a.tier} seed={seed} obligations={len(ctx.obligations)} '
                       f'cases={sum(s["cases"] for s in ctx.corr.values())} wall={round(__import__("time").time()-ctx.t0,1)}s')
             except Violation as v:
                 common.write_evidence(ctx, 1)
-                for l in ctx.known_lines:
-                    print(l)
                 tail = '' if v.found_input else ' no-failing-input-found'
                 print(f'# {v.what}')
                 print(f'VIOLATION property={prop} replay={v.replay}{tail}')
                 rc = 1
             except TieBroken as t:
                 # a tie broke and the property module did not run a search itself
-                replay = common.write_replay(ctx, 'tie', {'kind': 'tie', 'tie': t.tie, 'detail': t.detail})
-                common.write_evidence(ctx, 1)
-                print(f'# broken: {t.tie}: {t.detail[:1500]}')
-                print(f'VIOLATION property={prop} replay={replay} no-failing-input-found')
-                rc = 1
+                rc = broken(t.tie, t.detail)
         except SystemExit:
             raise
-        except Exception:
-            traceback.print_exc()
-            rc = 2
+        except Exception as e:
+            # the machinery itself failed (a harness or driver crash, a timeout — a hang of the code
+            # under test ends here too, a file of the tree under test that is gone): reported, with
+            # the traceback as the replay, never a silent non-zero exit
+            tb = traceback.format_exc()
+            sys.stderr.write(tb)
+            rc = 2 if a.replay else broken('machinery: ' + type(e).__name__, tb)
         finally:
             ctx.cleanup()
     sys.exit(rc)
